@@ -147,8 +147,9 @@ Proof.
         set (w1 := mkW (sk w) (pfx w) (keys w) es' (opens w) (sends w) t' (tr ++ out w)).
         specialize (IH len E (acc ++ got) w1).
         assert (Hneed : Z.to_nat (len - zlen (acc ++ got)) = (Datatypes.S n - length got)%nat).
-        { rewrite zlen_app. clear IH. unfold zlen in *. lia. }
-        rewrite Hneed in IH. specialize (IH ltac:(lia)). cbn [evs now w1] in IH.
+        { rewrite zlen_app. clear IH. unfold zlen in *. clear - Hlen Hl. lia. }
+        assert (Hg1 : (1 <= length got)%nat) by (destruct got; [congruence|cbn [length]; lia]).
+        rewrite Hneed in IH. specialize (IH ltac:(clear - Hg1 Hf Hl; lia)). cbn [evs now w1] in IH.
         unfold matches in *.
         destruct (floop (flatten es') (Datatypes.S n - length got) E t' (E - t') (Z.max 0 (E - t')) (acc ++ got)) as [[[k fl2] t2] tr2].
         destruct IH as (w2 & S1 & S2 & S3 & S4 & S5 & S6 & S7 & S8). exists w2.
@@ -164,9 +165,9 @@ Qed.
 Theorem tr_recv_all_respects len tmo : respects (tr_recv_all len tmo).
 Proof.
   intros w w' (H1 & H2 & H3 & H4 & H5 & H6 & H7 & H8).
-  unfold tr_recv_all. unfold bind, get_now.
+  unfold tr_recv_all. unfold bind, get_now. rewrite <- H6.
   pose proof (loop_flat (Z.to_nat len) len (now w + tmo) [] w) as A.
-  pose proof (loop_flat (Z.to_nat len) len (now w' + tmo) [] w') as B.
+  pose proof (loop_flat (Z.to_nat len) len (now w + tmo) [] w') as B.
   rewrite zlen_nil, Z.sub_0_r in A, B. specialize (A (le_n _)). specialize (B (le_n _)).
   rewrite <- H6, <- H7 in B.
   unfold matches in *.
@@ -178,4 +179,226 @@ Proof.
   - destruct A8 as [-> Ao]. destruct B8 as [-> Bo]. destruct (c =? -99); (split; [reflexivity|apply Hw; congruence]).
   - destruct A8 as [-> Ao]. destruct B8 as [-> Bo]. split; [reflexivity|apply Hw; congruence].
   - destruct A8 as [-> Ao]. destruct B8 as [-> Bo]. split; [reflexivity|apply Hw; congruence].
+Qed.
+
+(* ---------- lifting: every model function respects weq ---------- *)
+Lemma respects_ret {A} (a : A) : respects (ret a).
+Proof. intros w w' H. split; [reflexivity|exact H]. Qed.
+Lemma respects_bind {A B} (m : world -> res A) (f : A -> world -> res B) :
+  respects m -> (forall a, respects (f a)) -> respects (bind m f).
+Proof.
+  intros Hm Hf w w' H. unfold bind. specialize (Hm w w' H).
+  destruct (m w) as [a w1|e w1], (m w') as [a' w1'|e' w1']; try contradiction.
+  - destruct Hm as [<- Hw]. now apply Hf.
+  - exact Hm.
+Qed.
+(* the world itself as a value: the continuation only looks at it through fields that weq equates *)
+Lemma respects_get_w {B} (f : world -> world -> res B) :
+  (forall v v', weq v v' -> forall w w', weq w w' -> res_weq (f v w) (f v' w')) -> respects (bind get_w f).
+Proof. intros Hf w w' H. unfold bind, get_w. now apply Hf. Qed.
+
+Lemma strip_cons_eq t a b : strip a = strip b -> strip (t :: a) = strip (t :: b).
+Proof. unfold strip. cbn [filter]. intros ->. reflexivity. Qed.
+Lemma strip_app_eq l a b : strip a = strip b -> strip (l ++ a) = strip (l ++ b).
+Proof. rewrite !strip_app. intros ->. reflexivity. Qed.
+
+Ltac rprim :=
+  let H1 := fresh in let H2 := fresh in let H3 := fresh in let H4 := fresh in
+  let H5 := fresh in let H6 := fresh in let H7 := fresh in let H8 := fresh in
+  intros ? ? (H1 & H2 & H3 & H4 & H5 & H6 & H7 & H8); unfold_prims; cbn [res_weq];
+  rewrite ?H1, ?H2, ?H3, ?H6;
+  (split; [reflexivity|]); unfold weq; cbn [sk pfx keys opens sends now evs out];
+  repeat split; try assumption; try reflexivity; try congruence;
+  try (apply strip_cons_eq; assumption); try (apply strip_app_eq; assumption).
+
+Lemma respects_get_sk : respects get_sk. Proof. rprim. Qed.
+Lemma respects_get_now : respects get_now. Proof. rprim. Qed.
+Lemma respects_set_sk s : respects (set_sk s). Proof. rprim. Qed.
+Lemma respects_emit t : respects (emit t). Proof. rprim. Qed.
+Lemma respects_emit_all l : respects (emit_all l). Proof. rprim. Qed.
+Lemma respects_set_tables P K : respects (set_tables P K). Proof. rprim. Qed.
+Lemma respects_do_sleep n : respects (do_sleep n). Proof. rprim. Qed.
+Lemma respects_tr_close : respects tr_close. Proof. rprim. Qed.
+Lemma respects_modify_sk f : respects (modify_sk f).
+Proof. unfold modify_sk. apply respects_bind; [apply respects_get_sk|intros; apply respects_set_sk]. Qed.
+
+Lemma respects_tr_send b : respects (tr_send b).
+Proof.
+  intros w w' (H1 & H2 & H3 & H4 & H5 & H6 & H7 & H8). unfold tr_send. rewrite <- H5.
+  destruct (match sends w with [] => (1000000, []) | x :: r => (x, r) end) as [beh rst].
+  destruct (beh <? 0); cbn [res_weq]; (split; [reflexivity|]); unfold weq; cbn [sk pfx keys opens sends now evs out];
+    repeat split; try assumption; apply strip_cons_eq; assumption.
+Qed.
+Lemma respects_tr_open : respects tr_open.
+Proof.
+  intros w w' (H1 & H2 & H3 & H4 & H5 & H6 & H7 & H8). unfold tr_open. rewrite <- H4.
+  destruct (opens w); cbn [res_weq]; (split; [try rewrite H6; reflexivity|]); unfold weq; cbn [sk pfx keys opens sends now evs out];
+    repeat split; try assumption; try rewrite H6; apply strip_cons_eq; assumption.
+Qed.
+Lemma respects_dump tag : respects (dump tag).
+Proof.
+  intros w w' H. pose proof H as (H1 & H2 & H3 & H4 & H5 & H6 & H7 & H8). unfold dump. rewrite H1, H2, H3, H6.
+  apply respects_emit. exact H.
+Qed.
+
+Ltac rstep :=
+  match goal with
+  | |- respects (ret _) => apply respects_ret
+  | |- respects (bind get_w _) =>
+      apply respects_get_w;
+      let v := fresh "v" in let v' := fresh "v'" in let Hv := fresh "Hv" in
+      intros v v' Hv;
+      let Hp := fresh in let Hk := fresh in
+      destruct Hv as (_ & Hp & Hk & _); cbv beta; rewrite <- ?Hp, <- ?Hk;
+      match goal with |- forall w w', weq w w' -> res_weq (?f w) (?g w') => change (respects f) end
+  | |- respects (bind _ _) => apply respects_bind; [ | intros ?]
+  | |- respects (if ?c then _ else _) => destruct c
+  | |- respects (match ?x with _ => _ end) => destruct x
+  | |- respects (let _ := _ in _) => cbv zeta
+  | |- respects ((fun _ => _) _) => cbv beta
+  | |- respects get_sk => apply respects_get_sk
+  | |- respects get_now => apply respects_get_now
+  | |- respects (set_sk _) => apply respects_set_sk
+  | |- respects (emit _) => apply respects_emit
+  | |- respects (emit_all _) => apply respects_emit_all
+  | |- respects (set_tables _ _) => apply respects_set_tables
+  | |- respects (do_sleep _) => apply respects_do_sleep
+  | |- respects tr_close => apply respects_tr_close
+  | |- respects (modify_sk _) => apply respects_modify_sk
+  | |- respects (tr_send _) => apply respects_tr_send
+  | |- respects tr_open => apply respects_tr_open
+  | |- respects (dump _) => apply respects_dump
+  | |- respects (tr_recv_all _ _) => apply tr_recv_all_respects
+  end.
+
+Lemma respects_change_state ns : respects (change_state ns).
+Proof. unfold change_state. repeat rstep. Qed.
+Lemma respects_tr_send_all_loop fuel : forall b tot, respects (tr_send_all_loop fuel b tot).
+Proof. induction fuel as [|f IH]; intros; cbn [tr_send_all_loop]; repeat rstep. apply IH. Qed.
+Lemma respects_send_pdu b : respects (send_pdu b).
+Proof. unfold send_pdu, tr_send_all. repeat rstep. apply respects_tr_send_all_loop. Qed.
+Lemma respects_send_error_pdu enc c t : respects (send_error_pdu enc c t).
+Proof. unfold send_error_pdu. repeat rstep. apply respects_send_pdu. Qed.
+Lemma respects_send_error_from_host enc c t : respects (send_error_from_host enc c t).
+Proof. unfold send_error_from_host. repeat rstep; apply respects_send_error_pdu. Qed.
+Lemma respects_send_serial_query : respects send_serial_query.
+Proof. unfold send_serial_query. repeat rstep; try apply respects_send_pdu; apply respects_change_state. Qed.
+Lemma respects_send_reset_query : respects send_reset_query.
+Proof. unfold send_reset_query. repeat rstep; try apply respects_send_pdu; apply respects_change_state. Qed.
+Lemma respects_recv_err c : respects (recv_err c).
+Proof. unfold recv_err. repeat rstep; apply respects_change_state. Qed.
+
+Ltac rlem :=
+  match goal with
+  | |- respects (change_state _) => apply respects_change_state
+  | |- respects (send_error_pdu _ _ _) => apply respects_send_error_pdu
+  | |- respects (send_error_from_host _ _ _) => apply respects_send_error_from_host
+  | |- respects send_serial_query => apply respects_send_serial_query
+  | |- respects send_reset_query => apply respects_send_reset_query
+  | |- respects (recv_err _) => apply respects_recv_err
+  end.
+
+(* C04 (2): receive_pdu does not see the chunking *)
+Theorem receive_pdu_respects t : respects (receive_pdu t).
+Proof. unfold receive_pdu. repeat rstep; rlem. Qed.
+
+Lemma respects_handle_error_pdu p : respects (handle_error_pdu p).
+Proof. unfold handle_error_pdu. repeat rstep; rlem. Qed.
+Lemma respects_report_update_failure p c k : respects (report_update_failure p c k).
+Proof. unfold report_update_failure. repeat rstep; rlem. Qed.
+Lemma respects_src_remove_all : respects src_remove_all.
+Proof. unfold src_remove_all. repeat rstep. Qed.
+Lemma respects_purge_after_failed_undo : respects purge_after_failed_undo.
+Proof. unfold purge_after_failed_undo. repeat rstep. apply respects_src_remove_all. Qed.
+
+Ltac rlem2 :=
+  match goal with
+  | |- respects (handle_error_pdu _) => apply respects_handle_error_pdu
+  | |- respects (report_update_failure _ _ _) => apply respects_report_update_failure
+  | |- respects src_remove_all => apply respects_src_remove_all
+  | |- respects purge_after_failed_undo => apply respects_purge_after_failed_undo
+  | |- respects (receive_pdu _) => apply receive_pdu_respects
+  | _ => rlem
+  end.
+
+Lemma respects_process_eod p v4 v6 ks : respects (process_eod p v4 v6 ks).
+Proof. unfold process_eod. repeat rstep; rlem2. Qed.
+Lemma respects_store_loop fuel : forall v4 v6 ks, respects (store_loop fuel v4 v6 ks).
+Proof.
+  induction fuel as [|f IH]; intros; cbn [store_loop]; repeat rstep.
+  all: try match goal with |- respects (store_loop _ _ _ _) => apply IH end.
+  all: try match goal with |- respects (process_eod _ _ _ _) => apply respects_process_eod end.
+  all: rlem2.
+Qed.
+Lemma respects_receive_and_store fuel : respects (receive_and_store fuel).
+Proof. unfold receive_and_store. repeat rstep. apply respects_store_loop. Qed.
+Lemma respects_sync_first fuel : respects (sync_first fuel).
+Proof.
+  induction fuel as [|f IH]; cbn [sync_first]; repeat rstep.
+  all: try match goal with |- respects (sync_first _) => apply IH end.
+  all: rlem2.
+Qed.
+Lemma respects_rtr_sync fuel : respects (rtr_sync fuel).
+Proof.
+  unfold rtr_sync. repeat rstep.
+  all: try match goal with |- respects (sync_first _) => apply respects_sync_first end.
+  all: try match goal with |- respects (receive_and_store _) => apply respects_receive_and_store end.
+  all: rlem2.
+Qed.
+Lemma respects_wait_for_sync : respects wait_for_sync.
+Proof. unfold wait_for_sync. repeat rstep; rlem2. Qed.
+Lemma respects_purge_outdated : respects purge_outdated.
+Proof. unfold purge_outdated. repeat rstep; rlem2. Qed.
+Lemma respects_fsm_step fuel : respects (fsm_step fuel).
+Proof.
+  unfold fsm_step. repeat rstep.
+  all: try match goal with |- respects (rtr_sync _) => apply respects_rtr_sync end.
+  all: try match goal with |- respects wait_for_sync => apply respects_wait_for_sync end.
+  all: try match goal with |- respects purge_outdated => apply respects_purge_outdated end.
+  all: rlem2.
+Qed.
+Lemma respects_rtr_stop : respects rtr_stop.
+Proof. unfold rtr_stop. repeat rstep; rlem2. Qed.
+
+(* whole runs *)
+Theorem run_fsm_respects n fuel : forall w w', weq w w' -> weq (run_fsm n fuel w) (run_fsm n fuel w').
+Proof.
+  induction n as [|n IH]; intros w w' H; cbn [run_fsm]; [exact H|].
+  pose proof (respects_fsm_step fuel w w' H) as Hs.
+  destruct (fsm_step fuel w) as [[] w1|[why|] w1], (fsm_step fuel w') as [[] w1'|[why'|] w1']; try contradiction;
+    destruct Hs as [He Hw]; try discriminate.
+  - now apply IH.
+  - exact Hw.
+  - assert (Hr : respects (mdo _ <- rtr_stop; mdo _ <- dump 1; modify_sk (fun s => upd_st s c_RTR_CONNECTING))).
+    { repeat rstep. apply respects_rtr_stop. }
+    specialize (Hr w1 w1' Hw).
+    destruct ((mdo _ <- rtr_stop; mdo _ <- dump 1; modify_sk (fun s => upd_st s c_RTR_CONNECTING)) w1) as [[] w2|e w2],
+             ((mdo _ <- rtr_stop; mdo _ <- dump 1; modify_sk (fun s => upd_st s c_RTR_CONNECTING)) w1') as [[] w2'|e' w2']; try contradiction.
+    + apply IH, Hr.
+    + apply Hr.
+Qed.
+
+(* C04 (2), whole model: two receive scripts with the same flattening give the same trace up to read sizes *)
+Theorem run_script_chunking n fuel refresh expire retry mode P K es1 es2 os ss :
+  flatten es1 = flatten es2 ->
+  strip (run_script n fuel refresh expire retry mode P K es1 os ss) =
+  strip (run_script n fuel refresh expire retry mode P K es2 os ss).
+Proof.
+  intros Hf. unfold run_script. destruct (negb (init_ok refresh expire retry)); [reflexivity|]. cbv zeta.
+  set (a := mkW (init_sock refresh expire retry mode) P K es1 os ss 1000 []).
+  set (b := mkW (init_sock refresh expire retry mode) P K es2 os ss 1000 []).
+  assert (H0 : weq a b) by (repeat split; exact Hf).
+  pose proof (respects_dump 0 a b H0) as H1.
+  destruct (dump 0 a) as [[] a1|e a1] eqn:Ea, (dump 0 b) as [[] b1|e' b1] eqn:Eb; try contradiction;
+    [|unfold dump, emit in Ea; discriminate].
+  destruct H1 as [_ H1].
+  assert (H2 : weq (mkW (upd_st (sk a1) c_RTR_CONNECTING) (pfx a1) (keys a1) (evs a1) (opens a1) (sends a1) (now a1) (out a1))
+                   (mkW (upd_st (sk b1) c_RTR_CONNECTING) (pfx b1) (keys b1) (evs b1) (opens b1) (sends b1) (now b1) (out b1))).
+  { destruct H1 as (S1 & S2 & S3 & S4 & S5 & S6 & S7 & S8). unfold weq. cbn [sk pfx keys opens sends now evs out]. rewrite S1. repeat split; assumption. }
+  apply (run_fsm_respects n fuel) in H2.
+  pose proof (respects_dump 2 _ _ H2) as H3.
+  match goal with |- strip (rev (out match ?x with _ => _ end)) = strip (rev (out match ?y with _ => _ end)) =>
+    destruct x as [[] a3|e a3] eqn:Ea3, y as [[] b3|e' b3] eqn:Eb3; try contradiction end.
+  - destruct H3 as [_ H3]. rewrite !strip_rev. f_equal. apply H3.
+  - unfold dump, emit in Ea3. discriminate.
 Qed.
